@@ -37,6 +37,9 @@ func init() {
 			genChain(g, sc, n, nvalues(script), g.Pick("sync", "async", "hot", "timed"), chainable)
 			sc.Sub = g.Pick("inside", "outside")
 			sc.SetInt("cut", g.Range(-1, len(script)+1))
+			if g.Bool(0.25) {
+				sc.SetInt("warm", 1)
+			}
 			return sc
 		},
 		Expand: expandCuts,
@@ -213,6 +216,39 @@ func runCut(e *Env, prop string) {
 		}
 		rec.OnNextHook = func(r *Rec, v int) { hook() }
 		rec.OnTermHook = func(r *Rec, k byte) { hook() }
+	}
+	if sc.Int("warm", 0) == 1 && allCold(sc) {
+		// an earlier subscription of the same observable, cut short: whatever it left behind in the
+		// operator values must not keep the judged subscription from being released
+		rec0 := e.NewRec("warm")
+		h0 := e.Subscribe(o, rec0.Observer(), nil)
+		e.Settle()
+		if h0.Ret() && h0.Sub() != nil {
+			func() {
+				defer func() { recover() }()
+				h0.Sub().Unsubscribe()
+			}()
+		}
+		e.SettleFor(50 * Unit)
+		if e.K.Capped() || !h0.Ret() {
+			return
+		}
+		if h0.Sub() != nil && !h0.Sub().IsClosed() {
+			// Subscribe was still running at the first attempt (a synchronous source behind a sleeping stage)
+			func() {
+				defer func() { recover() }()
+				h0.Sub().Unsubscribe()
+			}()
+			e.SettleFor(50 * Unit)
+			if e.K.Capped() {
+				return
+			}
+		}
+		for _, s := range srcs {
+			if s.Live != 0 {
+				return // the warm-up itself was not released (judged by the scenarios without warm-up)
+			}
+		}
 	}
 	h = e.Subscribe(o, rec.Observer(), nil)
 	if cut >= 0 {
@@ -391,4 +427,14 @@ func runTeardownRace(e *Env) {
 	if rec.GrammarError() != "" {
 		e.Violate("C01", "grammar", rec.GrammarError())
 	}
+}
+
+// allCold: every source of the scenario starts its script anew for each subscription.
+func allCold(sc *Scn) bool {
+	for _, sp := range sc.Sources {
+		if sp.Mode == "hot" || sp.Mode == "manual" {
+			return false
+		}
+	}
+	return true
 }
